@@ -67,6 +67,7 @@ static int copy_fields(UMessage * dst, const UMessage * src, const char ** why)
          }
          break;
          case B_MESSAGE_TYPE:
+            if (n == 0) r = UMAddMessages(dst, name, NULL, 0);     /* a Message field with zero items */
             for (i=0; i<n; i++)
             {
                UMessage sub;
@@ -112,6 +113,7 @@ static int build_fields(UMessage * m, uint32 nf, char ** p, const char ** why)
       tc = (uint32) strtoul(tok(p), NULL, 16); n = (uint32) strtoul(tok(p), NULL, 10);
       if (tc == B_MESSAGE_TYPE)
       {
+         if ((n == 0)&&(UMAddMessages(m, (const char *) name, NULL, 0) != CB_NO_ERROR)) {*why = "UMAddMessages"; return 1;}     /* a Message field with zero items */
          for (j=0; j<n; j++)
          {
             char * t = tok(p); uint32 what, snf;
